@@ -33,14 +33,16 @@ for t, c in FT.items():
           'auto q=%s(a); auto v=ldv<4,%s>(b); stv(o, q*v); stv(o2, glm::rotate(q, v)); stv(o3, glm::vec<3,%s>(v)*q);' % (Q, c, c))
     U.add('m3_' + t, [(c, 4)], [(c, 9), (c, 16), (c, 9), (c, 16)],
           'auto q=%s(a); stm(o, glm::mat3_cast(q)); stm(o2, glm::mat4_cast(q)); stm(o3, glm::toMat3(q)); stm(o4, glm::mat<4,4,%s>(q));' % (Q, c))
-    U.add('rt_' + t, [(c, 4)], [(c, 4), (c, 4), (c, 4)],
-          'auto q=%s(a); stq(o, glm::quat_cast(glm::mat3_cast(q))); stq(o2, glm::quat_cast(glm::mat4_cast(q))); stq(o3, glm::qua<%s>(glm::mat3_cast(q)));' % (Q, c))
+    U.add('rt_' + t, [(c, 4)], [(c, 4)], 'stq(o, glm::quat_cast(glm::mat3_cast(%s(a))));' % Q)
+    U.add('rt4_' + t, [(c, 4)], [(c, 4)], 'stq(o, glm::quat_cast(glm::mat4_cast(%s(a))));' % Q)
+    U.add('rtc_' + t, [(c, 4)], [(c, 4)], 'stq(o, glm::qua<%s>(glm::mat4_cast(%s(a))));' % (c, Q))
+    U.add('rtg_' + t, [(c, 4)], [(c, 4)], 'stq(o, glm::toQuat(glm::toMat3(%s(a))));' % Q)
     U.add('mm_' + t, [(c, 4), (c, 4)], [(c, 9), (c, 9), (c, 4), (c, 4)],
           'auto p=%s(a); auto q=%s(b); stm(o, glm::mat3_cast(p*q)); stm(o2, glm::mat3_cast(p)*glm::mat3_cast(q)); stq(o3, p*q); stq(o4, glm::cross(p, q));' % (Q, Q))
     U.add('inv_' + t, [(c, 4)], [(c, 4), (c, 4), (c, 4)], 'auto q=%s(a); stq(o, q*glm::inverse(q)); stq(o2, glm::conjugate(q)); stq(o3, glm::inverse(q));' % Q)
     U.add('aa_' + t, [(c, 4)], [(c, 4)], 'auto q=%s(a); stq(o, glm::angleAxis(glm::angle(q), glm::axis(q)));' % Q)
     U.add('ang_' + t, [(c, 4)], [(c, 1), (c, 3)], 'auto q=%s(a); o[0]=glm::angle(q); stv(o2, glm::axis(q));' % Q)
-    U.add('angax_' + t, [(c, 1), (c, 3)], [(c, 4), (c, 3)], 'auto v=%s(b); auto q=glm::angleAxis(a[0], v); stq(o, q); stv(o2, q*%s(b+0));' % (V3, V3))
+    U.add('angax_' + t, [(c, 1), (c, 3), (c, 3)], [(c, 4), (c, 3)], 'auto q=glm::angleAxis(a[0], %s(b)); stq(o, q); stv(o2, q*%s(c));' % (V3, V3))
     U.add('uv_' + t, [(c, 3), (c, 3)], [(c, 3), (c, 4)], 'auto u=%s(a); auto v=%s(b); glm::qua<%s> q(u, v); stv(o, q*u); stq(o2, q);' % (V3, V3, c))
     U.add('rot_' + t, [(c, 3), (c, 3)], [(c, 3), (c, 4)], 'auto u=%s(a); auto v=%s(b); auto q=glm::rotation(u, v); stv(o, q*u); stq(o2, q);' % (V3, V3))
     U.add('ctor_' + t, [(c, 4)], [(c, 4), (c, 4), (c, 4), (c, 4)],
@@ -117,6 +119,12 @@ class Trig:
     def cos(s, x): return s._f('cos', x)
     @property
     def pi(s): return realtrig.real_pi(s.ex)
+    def sqrt(s, k, X):
+        """the k-th square root evaluated by the executed code (a variable y with y >= 0, y*y = its argument); X is the specification's expression for that
+        argument - the link 'argument == X' is proved separately via sqrt_arg; on numeric replay the value sqrt(X)"""
+        if is_num(X): return z3.RealVal(repr(math.sqrt(max(0.0, float(z3val_to_fraction(X))))))
+        return s.ex.sqrt_log[k][1]
+    def sqrt_arg(s, k, X): return X if is_num(X) else s.ex.sqrt_log[k][0]
 def Rx(T, a):
     c, s = T.cos(a), T.sin(a); return [[1, 0, 0], [0, c, -s], [0, s, c]]
 def Ry(T, a):
@@ -147,7 +155,7 @@ def chk(S, unit, fn, spec, pre=None, setup=None, **kw):
     def xh(res):
         box['T'] = Trig(res.ex); box['res'] = res
         return list(setup(res, box['T']) or []) if setup else []
-    kw.setdefault('mode', 'real'); kw.setdefault('timeout', S.cap(40, 120))
+    kw.setdefault('mode', 'real'); kw.setdefault('timeout', S.cap(40, 120)); kw.setdefault('solver', 'nra')
     return S.check_fn(unit, fn, lambda i, o: spec(i, o, box['T']), pre, extra_hyps=xh, ex=mkex, **kw)
 
 # ------------------------------------------------------------------------------------------------ jobs
@@ -169,20 +177,16 @@ def job_rotate(lay, t):
         chk(S, Un, 'm3_' + t, specm, lambda i: [unit(i[0])], bounds='all unit q')
     return run
 
-def job_roundtrip(lay, t):
+def job_roundtrip(lay, t, fns=('rt', 'rt4')):
     Un = UNITS[lay]
     def run(S):
         def spec(i, o, T):
-            q = i[0]; g = []
-            for nm, out in (('quat_cast(mat3)', o[0]), ('quat_cast(mat4)', o[1]), ('qua(mat3)', o[2])):
-                r = [rv(x) for x in out]
-                g.append((nm + '.unit', REq(norm2(r), z3.RealVal(1))))
-                for a in range(4):
-                    for b in range(a + 1, 4):
-                        g.append(('%s.parallel[%d,%d]' % (nm, a, b), REq(r[a] * q[b], r[b] * q[a])))
-            return g
-        chk(S, Un, 'rt_' + t, spec, lambda i: [unit(i[0])], bounds='all unit q (all four largest-component branches); unit + parallel to q <=> result in {q,-q}',
-            mutant=lambda i, o: [('m', REq(o[0][1].r, i[0][1]))])
+            q = i[0]; r = [rv(x) for x in o[0]]
+            g = [('square[%d]' % a, REq(r[a] * r[a], q[a] * q[a])) for a in range(4)]
+            return g + [('parallel[%d,%d]' % (a, b), REq(r[a] * q[b], r[b] * q[a])) for a in range(4) for b in range(a + 1, 4)]
+        for f in fns:
+            chk(S, Un, '%s_%s' % (f, t), spec, lambda i: [unit(i[0])], bounds='all unit q (all four largest-component branches); equal squares + parallel to q <=> result in {q,-q}',
+                mutant=lambda i, o: [('m', REq(o[0][1].r, i[0][1]))])
     return run
 
 def job_product(lay, t):
@@ -199,9 +203,149 @@ def job_product(lay, t):
         chk(S, Un, 'inv_' + t, speci, lambda i: [unit(i[0])], bounds='all unit q')
     return run
 
+
+def cross(a, b): return [a[1] * b[2] - a[2] * b[1], a[2] * b[0] - a[0] * b[2], a[0] * b[1] - a[1] * b[0]]
+def absr(x): return z3.If(x >= 0, x, -x)
+def fr(x): return z3.RealVal(str(Fraction(x)))
+E6 = fr(struct.unpack('<f', struct.pack('<f', 1e-6))[0])          # static_cast<T>(1.e-6f)
+EPS = {'f32': fr(2.0 ** -23), 'f64': fr(2.0 ** -52)}
+ZERO, ONE = z3.RealVal(0), z3.RealVal(1)
+
+def uv_parts(i, T):
+    """qua(u,v) as documented in type_quat.inl: normalize(|u||v| + u.v, u x v), or a half turn about an axis orthogonal to u when u, v are (nearly) opposite"""
+    u, v = i
+    X0 = norm2(u) * norm2(v); s = T.sqrt(0, X0); c = s + dot(u, v); opp = c < E6 * s
+    pick = absr(u[0]) > absr(u[2]); t1 = [-u[1], u[0], ZERO]; t2 = [ZERO, -u[2], u[1]]
+    raw_opp = [ZERO] + [z3.If(pick, a, b) for a, b in zip(t1, t2)]; raw_std = [c] + cross(u, v)
+    raw = [z3.simplify(z3.If(opp, a, b)) for a, b in zip(raw_opp, raw_std)]
+    X1 = norm2(raw); L = T.sqrt(1, X1)
+    return dict(s=s, c=c, opp=opp, raw=raw, L=L, X0=X0, X1=X1)
+
+def job_twovec(lay, t):
+    Un = UNITS[lay]
+    def run(S):
+        nz = lambda i: [norm2(i[0]) > 0, norm2(i[1]) > 0]
+        def spec(i, o, T):
+            P = uv_parts(i, T); q = [rv(x) for x in o[1]]
+            return ([('sqrt0.arg', REq(T.sqrt_arg(0, P['X0']), P['X0'])), ('sqrt1.arg', REq(T.sqrt_arg(1, P['X1']), P['X1'])), ('|u||v|>0', RGoal('gt', P['s'], ZERO)), ('len>0', RGoal('gt', P['L'], ZERO))]
+                    + [('q*len==raw[%d]' % k, REq(q[k] * P['L'], P['raw'][k])) for k in range(4)])
+        chk(S, Un, 'uv_' + t, spec, nz, bounds='all non-zero u, v; chain: q = raw/|raw| (here) + lemmas.* => q maps u/|u| to v/|v| (to -u/|u| on the opposite-vectors branch)',
+            mutant=lambda i, o: [('m', REq(o[1][1].r * uv_parts(i, Trig(None))['L'], -uv_parts(i, Trig(None))['raw'][1]))] if False else [])
+        # gtx rotation(orig, dest), documented for normalised arguments
+        un = lambda i: [unit(i[0]), unit(i[1])]
+        eps = EPS[t]
+        def specr(i, o, T):
+            u, v = i; q = [rv(x) for x in o[1]]; c = dot(u, v); X0 = (ONE + c) * 2; Sq = T.sqrt(0, X0); t_ = cross(u, v)
+            same = c >= 1 - eps; opp = c < -1 + eps; std = z3.And(z3.Not(same), z3.Not(opp))
+            g = [('std.sqrt.arg', REq(T.sqrt_arg(0, X0), X0)), ('std.s>0', z3.Implies(std, Sq > 0)), ('std.w*2==s', z3.Implies(std, q[0] * 2 == Sq))]
+            g += [('std.xyz*s==cross[%d]' % k, z3.Implies(std, q[k + 1] * Sq == t_[k])) for k in range(3)]
+            g += [('same.identity[%d]' % k, z3.Implies(same, q[k] == (ONE if k == 0 else ZERO))) for k in range(4)]
+            g += [('opp.axis-orthogonal', z3.Implies(opp, dot(q[1:], u) == 0)), ('opp.axis-unit', z3.Implies(opp, norm2(q[1:]) == 1)),
+                  ('opp.|w|<=1e-7', z3.Implies(opp, z3.And(q[0] <= fr(1e-7), q[0] >= fr(-1e-7))))]
+            return g
+        chk(S, Un, 'rot_' + t, specr, un, bounds='all unit u, v; chain: q = (s/2, u x v / s), s = sqrt(2(1+u.v)) (here) + lemmas.* => q maps u to v; cos>=1-eps: identity; cos<-1+eps: half turn about a unit axis orthogonal to u')
+    return run
+
+def job_lemmas(S):
+    """code-free links of the lemma chains (pure polynomial / scalar facts); every chain link is a discharged obligation"""
+    u = list(z3.Reals('u0 u1 u2')); v = list(z3.Reals('v0 v1 v2')); p = list(z3.Reals('p0 p1 p2 p3')); s, lam = z3.Reals('s lam')
+    P = lambda n, g, h=(): S.prove('c04.lemmas.' + n, g, list(h), timeout=S.cap(30, 90), solver='nra', kind='lemma', functions=['(specification-side lemma)'])
+    uu, vv = norm2(u), norm2(v); c = s + dot(u, v); raw = [c] + cross(u, v)
+    for k in range(3):
+        P('scale[%d]: rot(lam*p, u) == lam^2 rot(p, u)' % k, qrot([lam * x for x in p], u)[k] == lam * lam * qrot(p, u)[k])
+        P('rot.std[%d]: rot((s+u.v, u x v), u) == 2|u|^2 (s+u.v) v  given s^2=|u|^2|v|^2' % k, qrot(raw, u)[k] == 2 * uu * c * v[k], [s * s == uu * vv])
+        P('rot.opp1[%d]' % k, qrot([ZERO, -u[1], u[0], ZERO], u)[k] == -(u[1] * u[1] + u[0] * u[0]) * u[k])
+        P('rot.opp2[%d]' % k, qrot([ZERO, ZERO, -u[2], u[1]], u)[k] == -(u[2] * u[2] + u[1] * u[1]) * u[k])
+    P('norm.std: |(s+u.v, u x v)|^2 == 2 s (s+u.v)', norm2(raw) == 2 * s * c, [s * s == uu * vv])
+    X, L2, cc, n2, vk, uk, nu, nv, S2 = z3.Reals('X L2 cc n2 vk uk nu nv S2')
+    P('c>0.std', cc > 0, [s > 0, z3.Not(cc < E6 * s)])
+    P('final.std: rot(q,u)_k |v| == v_k |u|', X * nv == nu * vk, [X * L2 == 2 * n2 * cc * vk, L2 == 2 * s * cc, cc > 0, s == nu * nv, n2 == nu * nu, nu > 0, nv > 0])
+    P('final.opp: rot(q,u)_k == -u_k', X == -uk, [X * L2 == -L2 * uk, L2 > 0])
+    P('rotation.glue0', (2 * s) * p[0] == 2 * (1 + cc), [p[0] * 2 == s, s * s == 2 * (1 + cc)])
+    P('rotation.glue1', (2 * s) * p[1] == 2 * vk, [p[1] * s == vk])
+    P('final.rotation: rot(q,u)_k == v_k', X == vk, [X * (4 * S2) == 4 * S2 * vk, S2 > 0])
+    # product chain is not needed (decided directly); homomorphism on the specification side, hypothesis-free:
+    q = list(z3.Reals('q0 q1 q2 q3'))
+    Rp, Rq, Rpq = rotmat(p), rotmat(q), rotmat(qmul(p, q))
+    for r in range(3):
+        for cidx in range(3): P('rotmat(p q) == rotmat(p) rotmat(q) [r%dc%d]' % (r, cidx), Rpq[r][cidx] == matmul(Rp, Rq)[r][cidx])
+
+def rodrigues(T, axis, a, w):
+    """rotation of w about the unit axis by angle a"""
+    c, s = T.cos(a), T.sin(a); k = dot(axis, w); x = cross(axis, w)
+    return [w[j] * c + x[j] * s + axis[j] * k * (1 - c) for j in range(3)]
+
+def job_axisangle(lay, t):
+    Un = UNITS[lay]
+    def run(S):
+        chk(S, Un, 'aa_' + t, lambda i, o, T: vec_goals('angleAxis(angle(q),axis(q))', o[0], i[0]), lambda i: [unit(i[0])],
+            bounds='all unit q, both branches of angle() (|w| > cos(1/2): asin form, with the w<0 reflection 2pi-a; else acos form)', mutant=lambda i, o: [('m', REq(o[0][2].r, -i[0][2]))])
+        def setup(res, T):
+            realtrig.trig_double(res.ex, res.ins[0][0] * z3.RealVal('1/2')); return []
+        def spec(i, o, T):
+            a, ax, w = i[0][0], i[1], i[2]; h = a * z3.RealVal('1/2')
+            want = [T.cos(h)] + [x * T.sin(h) for x in ax]
+            return vec_goals('angleAxis', o[0], want) + vec_goals('angleAxis(a,n)*w==rodrigues', o[1], rodrigues(T, ax, a, w))
+        chk(S, Un, 'angax_' + t, spec, lambda i: [unit(i[1])], setup=setup, bounds='all angles, unit axes, vectors; double-angle identities instantiated for a/2')
+    return run
+
+def job_euler(t, names):
+    def run(S):
+        for n in names:
+            if n.startswith('d'):
+                ax = n[1]
+                chk(S, U, 'dea%s_%s' % (ax, t), lambda i, o, T, ax=ax: mat_goals('derivedEulerAngle' + ax, M(o[0], 4, 4), [r + [ZERO] for r in dR(T, ax, i[0][0], i[0][1])] + [[ZERO] * 4]), bounds='all angles and angular velocities')
+            elif n == 'ypr':
+                def spec(i, o, T):
+                    a = i[0]
+                    return (mat_goals('yawPitchRoll', M(o[0], 4, 4), embed4(euler_product(T, 'YXZ', a))) + mat_goals('orientate3', M(o[1], 3, 3), euler_product(T, 'YXZ', [a[2], a[0], a[1]]))
+                            + mat_goals('orientate4', M(o[2], 4, 4), embed4(euler_product(T, 'YXZ', [a[2], a[0], a[1]]))))
+                chk(S, U, 'ypr_' + t, spec, bounds='all angle triples')
+            elif n == 'or2':
+                def spec2(i, o, T):
+                    a = i[0][0]; c, s_ = T.cos(a), T.sin(a)
+                    return mat_goals('orientate2', M(o[0], 2, 2), [[c, -s_], [s_, c]]) + mat_goals('orientate3(angle)', M(o[1], 3, 3), R(T, 'Z', a))
+                chk(S, U, 'or2_' + t, spec2, bounds='all angles')
+            else:
+                chk(S, U, 'ea%s_%s' % (n, t), lambda i, o, T, n=n: mat_goals('eulerAngle%s==%s' % (n, '*'.join('R' + x for x in n)), M(o[0], 4, 4), embed4(euler_product(T, n, i[0]))),
+                    bounds='all angle tuples; product of the standard single-axis rotation matrices R%s' % n,
+                    mutant=lambda i, o, n=n: [('m', REq(o[0][1].r, -o[0][1].r + 1))])
+    return run
+
+def job_layout(t, fns):
+    """[bit] differential: the named components of every result are bit-identical in the XYZW and the WXYZ build (same symbolic inputs, libm as shared uninterpreted functions)"""
+    def run(S):
+        for f in fns:
+            name = f + '_' + t
+            try:
+                r1 = sym_call(U, name, mode='fp'); r2 = sym_call(UW, name, ins=r1.ins, mode='fp')
+            except Unsupported as e:
+                S.rec(name='c04.layout.' + name, kind='encode', result='unsupported', status='not-encoded', note=str(e), mandatory=True, functions=[name]); S.inconclusive.append('layout %s [not encoded: %s]' % (name, e)); continue
+            for k, (a1, a2) in enumerate(zip(r1.outs, r2.outs)):
+                for j, (x, y) in enumerate(zip(a1, a2)):
+                    S.prove('c04.layout.%s.out%d[%d]' % (name, k, j), same_float(x, y), r1.axioms + r2.axioms, timeout=S.cap(30, 90), kind='spec', functions=['w_' + name + ' (XYZW vs WXYZ)'],
+                            bounds='all bit patterns', vars_=[v for row in r1.ins for v in row])
+    return run
+
+def job_ctor(lay, t):
+    Un = UNITS[lay]
+    def run(S):
+        def spec(i, o):
+            a = i[0]; idx = [1, 2, 3, 0] if lay == 'xyzw' else [0, 1, 2, 3]
+            return ([('qua(w,x,y,z)[%d]' % k, o[0][k].bits == a[k]) for k in range(4)] + [('qua::wxyz[%d]' % k, o[1][k].bits == a[k]) for k in range(4)]
+                    + [('qua(s,vec3)[%d]' % k, o[2][k].bits == a[k]) for k in range(4)] + [('operator[%d]' % k, o[3][k].bits == a[idx[k]]) for k in range(4)])
+        S.check_fn(Un, 'ctor_' + t, spec, None, mode='fp', bounds='all bit patterns; components travel as [w,x,y,z]; operator[] follows the documented member order of the layout')
+    return run
+
 def jobs(tier):
-    q = tier == 'quick'; J = []
+    q = tier == 'quick'; J = [('lemmas', job_lemmas)]
     for lay in UNITS:
         for t in FT:
-            J += [('rotate_%s_%s' % (lay, t), job_rotate(lay, t)), ('roundtrip_%s_%s' % (lay, t), job_roundtrip(lay, t)), ('product_%s_%s' % (lay, t), job_product(lay, t))]
+            J += [('rotate_%s_%s' % (lay, t), job_rotate(lay, t)), ('roundtrip_%s_%s' % (lay, t), job_roundtrip(lay, t, ('rt', 'rt4') if q else ('rt', 'rt4', 'rtc', 'rtg'))),
+                  ('product_%s_%s' % (lay, t), job_product(lay, t)), ('axisangle_%s_%s' % (lay, t), job_axisangle(lay, t)), ('twovec_%s_%s' % (lay, t), job_twovec(lay, t)),
+                  ('ctor_%s_%s' % (lay, t), job_ctor(lay, t))]
+    for t in FT:
+        names = ['X', 'Y', 'Z', 'dX', 'dY', 'dZ'] + EULER2 + EULER3 + ['ypr', 'or2']
+        for k in range(0, len(names), 7): J.append(('euler_%s_%d' % (t, k // 7), job_euler(t, names[k:k + 7])))
+        J.append(('layout_' + t, job_layout(t, ['qv', 'm3', 'rt', 'mm', 'inv', 'aa', 'uv', 'rot', 'qeul', 'eulq'])))
     return J
